@@ -52,6 +52,23 @@ func ebnf(n node) string {
 	}
 }
 
+// hasModifier reports whether n, seen through captures and plain groups, is a group with a modifier.
+func hasModifier(n node) bool {
+	for {
+		switch t := n.(type) {
+		case *capture:
+			n = t.node
+		case *group:
+			if t.mode != groupMatchOnce {
+				return true
+			}
+			n = t.expr
+		default:
+			return false
+		}
+	}
+}
+
 func buildEBNF(root bool, n node, seen map[node]bool, p *ebnfp, outp *[]*ebnfp) {
 	switch n := n.(type) {
 	case *disjunction:
@@ -136,6 +153,11 @@ func buildEBNF(root bool, n node, seen map[node]bool, p *ebnfp, outp *[]*ebnfp) 
 		p.out += fmt.Sprintf("%q", n.s)
 
 	case *group:
+		// A modifier directly on a group that has a modifier of its own (eg. "(a?)!") needs its own parentheses.
+		wrap := n.mode != groupMatchOnce && hasModifier(n.expr)
+		if wrap {
+			p.out += "("
+		}
 		if child, ok := n.expr.(*group); ok && child.mode == groupMatchOnce {
 			buildEBNF(false, child.expr, seen, p, outp)
 		} else if child, ok := n.expr.(*capture); ok {
@@ -146,6 +168,9 @@ func buildEBNF(root bool, n node, seen map[node]bool, p *ebnfp, outp *[]*ebnfp) 
 			}
 		} else {
 			buildEBNF(false, n.expr, seen, p, outp)
+		}
+		if wrap {
+			p.out += ")"
 		}
 		switch n.mode {
 		case groupMatchNonEmpty:
